@@ -88,12 +88,28 @@ def _shapes_c12_2(tier):
             for n in ns:
                 for bs in ((8, 16) if ver == (3, 0) and n <= 80 else (16,)):
                     combos.append((ver, mac, n, bs))
+    out = []
     if tier == "quick":
         # one window-edge case: n just above 256 + digest (start_pos > 0 both
         # in the padding scan and in the MAC scan)
         combos.append(((3, 1), "sha1", 277, 16))
         combos.append(((3, 0), "md5", 130, 16))
-    out = []
+    # alignment of the MAC position relative to the hash block size at the
+    # far end of the 256-byte scanning window: (n - 256 - ds) mod hash-block
+    # for maximal padding; only the large padding values matter there
+    for ver, mac in (((3, 1), "sha1"), ((3, 3), "sha384"), ((3, 2), "md5"),
+                     ((3, 3), "sha256")):
+        ds, hb = DIGESTS[mac]
+        if tier == "quick":
+            aligns = {"sha1": (0, 31, 63), "sha384": (0, 127),
+                      "md5": (62,), "sha256": (1,)}[mac]
+        else:
+            aligns = range(hb)
+        for a in aligns:
+            n = 256 + ds + a
+            for lo in ((248,) if tier == "quick" else (224, 232, 240, 248)):
+                out.append(dict(version=list(ver), mac=mac, n=n, block=16,
+                                split=[lo, lo + 8]))
     for ver, mac, n, bs in combos:
         for rng in _chunks(n):
             out.append(dict(version=list(ver), mac=mac, n=n, block=bs,
@@ -142,7 +158,8 @@ def spec_cbc(data, mac_of, ds, version, block_size, last_values):
                      "last byte restricted to [lo,hi) per job and concretised "
                      "per path; all 256 values covered by the union of the "
                      "jobs of one (version, MAC, n, block)"],
-            patches=_proxies, timeout=(300, 1800), query_timeout=(120, 600))
+            patches=_proxies, timeout=(300, 1800), query_timeout=(120, 600),
+            also=("C02",))
 def c12_2(I, shape):
     """ct_check_cbc_mac_and_pad(body) <=> body well formed, for all bodies"""
     version = tuple(shape["version"])
@@ -175,3 +192,99 @@ def c12_2(I, shape):
     I.check(IFF(got, want), "accepts-exactly-well-formed",
             detail=lambda: dict(impl=bool(got), spec=bool(want),
                                 body=bytes(data).hex()))
+
+
+# ---------------------------------------------------------------------------
+# C12.3  the caller: _decryptThenMAC hands the right parameters to the check
+#        and strips exactly MAC and padding
+# ---------------------------------------------------------------------------
+from models.fixtures import rl_proxies, make_layer, install_state, newbuf
+from symx.core import assume
+import tlslite.recordlayer as rl
+from tlslite.errors import TLSBadRecordMAC, TLSDecryptionFailed
+
+
+def _shapes_c12_3(tier):
+    out = []
+    for ver in VERSIONS:
+        for block, macs in ((16, ("sha1", "sha256")), (8, ("sha1", "md5"))):
+            for mac in macs:
+                ds = DIGESTS[mac][0]
+                if ver == (3, 0) and mac == "sha256":
+                    continue
+                base = ((ds + 1 + block - 1) // block) * block
+                ns = [base, base + block] if tier == "quick" else \
+                    [base, base + block, base + 2 * block, base + 3 * block]
+                for n in ns:
+                    step = 32 if tier == "quick" else 16
+                    for lo in range(0, min(256, n + 8), step):
+                        out.append(dict(version=list(ver), mac=mac, n=n,
+                                        block=block, split=[lo, lo + step]))
+    return out
+
+
+@obligation("C12.3", _shapes_c12_3,
+            functions=["tlslite.recordlayer:RecordLayer._decryptThenMAC",
+                       "tlslite.utils.constanttime:ct_check_cbc_mac_and_pad"],
+            assumes=["decryption = identity-free bijection model; the body "
+                     "AFTER decryption (and explicit-IV removal) is the "
+                     "symbolic object; MAC = uninterpreted function",
+                     "last byte of the body case-split as in C12.2"],
+            patches=lambda shape: (rl_proxies(), []),
+            timeout=(300, 1500), also=("C02",))
+def c12_3(I, shape):
+    """_decryptThenMAC accepts exactly the well-formed bodies for the
+    cipher's own block size and returns exactly the content"""
+    version = tuple(shape["version"])
+    ds, hb = DIGESTS[shape["mac"]]
+    block = shape["block"]
+    n = shape["n"]
+    rs, rcv = make_layer(version, "cbc")
+    install_state(rcv, rcv._readState, "cbc", "k", ds, block, stateless=True)
+    rcv._readState.macContext.block_size = hb
+    seq = I.uint(48, "seq")
+    rcv._readState.seqnum = seq
+    ctype = I.byte("ctype")
+    body = I.bytes(n, "d")
+    lo, hi = shape["split"]
+    last = I.pick(range(lo, min(hi, 256)), "last")
+    body[n - 1] = last
+    iv = I.bytes(block, "iv") if version >= (3, 2) else newbuf()
+    plain = newbuf(list(iv) + list(body))
+
+    class Dec(object):
+        """decrypt() returns the chosen plaintext whatever the ciphertext:
+        the obligation quantifies over decrypted bodies"""
+        isBlockCipher = True
+        isAEAD = False
+        block_size = block
+        name = "3des" if block == 8 else "aes128"
+
+        def decrypt(self, data):
+            return newbuf(list(plain))
+    rcv._readState.encContext = Dec()
+    wire = newbuf([0] * len(plain))
+    try:
+        out = rcv._decryptThenMAC(ctype, wire)
+        accepted = True
+    except TLSBadRecordMAC:
+        accepted = False
+
+    seqb = list(seq.to_bytes(8, 'big')) if not isinstance(seq, int) \
+        else list(seq.to_bytes(8, 'big'))
+
+    def mac_of(clen):
+        hdr = list(seqb) + [ctype]
+        if version != (3, 0):
+            hdr += [version[0], version[1]]
+        hdr += [clen >> 8, clen & 0xff]
+        return H("mack", hdr + list(body)[:clen], ds)
+
+    want = spec_cbc(list(body), mac_of, ds, version, block, [last])
+    I.check(IFF(accepted, want), "caller-accepts-exactly-well-formed")
+    if accepted:
+        clen = n - last - 1 - ds
+        I.check(AND(len(out) == clen,
+                    seq_eq(out, list(body)[:clen]) if len(out) == clen
+                    else False), "caller-strips-mac-and-padding")
+        I.check(rcv._readState.seqnum == seq + 1, "seqnum-advanced-once")
